@@ -240,3 +240,27 @@ def score_legs(v, acc, maxops, timeout=1800):
     for r in recs:
         if r.get("kind") == "mismatch":
             v.fail("score-replay", {"why": r["why"], "spec": r["spec"]})
+
+
+def runes_legs(v, acc, timeout=600):
+    """Legs M and G on the id <-> rune channel to go-diff (V2Runes): Lossless / Injective / NoSurrogate on the spec, then every
+    boundary id through the real idToRune / runeToID, Go's string([]rune) and go-diff."""
+    r = tlc_require_ok(tlc("V2RunesMC", "V2RunesMC.cfg", timeout=timeout), "V2Runes model check")
+    acc.add_tlc(r, "V2RunesMC.cfg")
+    gen = tlc_require_ok(tlc("V2RunesMC", "V2RunesGen.cfg", timeout=timeout), "V2Runes vector generation")
+    acc.add_tlc(gen, "V2RunesGen.cfg")
+    out = os.path.join(sub("out"), "runes.ndjson")
+    if os.path.exists(out):
+        os.remove(out)
+    rc, txt, _ = go_overlay_test("v2", ["common/util_test.go", "v2/runes_driver_test.go"], "^TestVerifRunesReplay$", timeout=timeout,
+                                 env={"VERIF_IN": gen.outpath, "VERIF_OUT": out})
+    recs = read_ndjson(out)
+    summ = [r for r in recs if r.get("kind") == "summary"]
+    if vlib.build_failed(txt) or not summ or summ[0]["vectors"] == 0:
+        raise vlib.Inconclusive("runes replay driver failed:\n" + txt[-2500:])
+    s = summ[0]
+    acc.evaluations += s["vectors"] + s["pairs"]; acc.nontrivial += s["vectors"]
+    acc.extra["runes_replay"] = {"ids": s["vectors"], "substitution_pairs_through_go_diff": s["pairs"], "mismatches": s["mismatches"]}
+    for r in recs:
+        if r.get("kind") == "mismatch":
+            v.fail("runes-replay", {"id": r["id"], "why": r["why"]})
